@@ -395,9 +395,15 @@ func (c *kase) refKeys(st *state.State) []int {
 	return out
 }
 
-func (c *kase) project() obs {
+func (c *kase) project() (o obs) {
+	// a query that panics is an answer like any other: it is recorded (and cannot equal the specification's)
+	defer func() {
+		if r := recover(); r != nil {
+			o = obs{Keys: []keyObs{}, Cold: []keyObs{}, Ref: []int{}, Scan: []int{}, Cscan: []int{}, Transient: []string{fmt.Sprintf("panic in a query: %v", r)}, Resp: c.robs}
+		}
+	}()
 	st := c.w.node.State
-	o := obs{Transient: []string{}, Resp: c.robs}
+	o = obs{Transient: []string{}, Resp: c.robs}
 	rd := st.CreateXMReader()
 	for _, k := range []string{"ContractUtxo.Inputs", "ContractUtxo.Outputs", "contractEvent"} {
 		vd, err := rd.Get(sandbox.TransientBucket, []byte(k))
@@ -521,7 +527,14 @@ func (c *kase) request(prog []step, amt int) *protos.InvokeRequest {
 }
 
 // preexec calls the engine's own Chain.PreExec as an RPC client would.
-func (c *kase) preexec(prog []step, amt int) (string, string) {
+func (c *kase) preexec(prog []step, amt int) (res string, msg string) {
+	// a panic of the code under test is a result class of its own, which the specification never produces
+	defer func() {
+		if r := recover(); r != nil {
+			c.resp, c.robs = nil, noResp("panic")
+			res, msg = "panic", fmt.Sprint(r)
+		}
+	}()
 	c.amt = amt
 	resp, err := c.w.chain.PreExec(c.w.ctx, []*protos.InvokeRequest{c.request(prog, amt)}, c.ini.Address, []string{c.ini.Address})
 	if err != nil {
@@ -635,8 +648,8 @@ func (c *kase) tamper(p *parts, op fx.Ev) error {
 		} else {
 			p.outsExt = append(p.outsExt[:at], p.outsExt[at+1:]...)
 		}
-	case "write_add", "write_app":
-		// one more record at the end of the write set (write_app: for a key that has a record already)
+	case "write_add", "write_app", "write_rep":
+		// one more record at the end of the write set (write_app: for a key that has a record already; write_rep: a copy of it)
 		p.outsExt = append(p.outsExt, &protos.TxOutputExt{Bucket: c.bucket, Key: keyName(n), Value: concVal(v)})
 	case "write_dup", "write_swap":
 		// write_dup: the record of key n becomes a copy of the record of key j (the number of records stays);
@@ -881,6 +894,11 @@ func (c *kase) build(p *parts) (*pb.Transaction, error) {
 
 // submit: State.VerifyTx then State.DoTx, exactly what Chain.SubmitTx does; reports the outcome class.
 func (c *kase) submit(op fx.Ev) (res string, extra fx.Ev, err error) {
+	defer func() {
+		if r := recover(); r != nil {
+			res, extra, err = "panic", fx.Ev{"err": fmt.Sprintf("panic: %v", r)}, nil
+		}
+	}()
 	extra = fx.Ev{}
 	if c.resp == nil {
 		extra["err"] = "submit without a pre-execution response"
